@@ -352,6 +352,20 @@ pub fn run(cfg: &Config) -> i32 {
                 l.sample(&lab, json!({"mt": mt, "f72": case.f72, "mur": case.mur, "flag119": case.flag119}));
             }
             judge(&case, l, None);
+            // the same tags in another order inside block 3 (as received, not as the library would write them):
+            // the classification does not depend on the order
+            if let Some(m) = mur {
+                let m108 = format!("{{108:{m}}}");
+                let mut variants: Vec<String> = vec![case.text.replacen(&m108, &format!("{m108}{{113:URGT}}"), 1), case.text.replacen(&m108, &format!("{{121:7f3a2b1c-4d5e-4f60-8a9b-0c1d2e3f4a5b}}{m108}"), 1)];
+                if let Some(f) = flag {
+                    variants.push(case.text.replacen(&format!("{m108}{{119:{f}}}"), &format!("{{119:{f}}}{m108}"), 1));
+                }
+                for t2 in variants {
+                    if t2 != case.text {
+                        judge(&Case { text: t2, ..case.clone() }, l, None);
+                    }
+                }
+            }
             if mt == "202" && b == 0 {
                 for cov in ["none", "50K", "59", "50K+59"] {
                     if let Some(t2) = with_cover_sequence(&case.text, cov) {
